@@ -476,10 +476,10 @@ Qed.
 Lemma all_RTV (ms : list ty) : Forall RTV ms.
 Proof. apply Forall_forall. intros t _. apply oer_var_decodes_all. Qed.
 
-Theorem ext_oer_seq_complete std tg root adds oc rvs avs bs rest :
+Theorem ext_oer_seq_complete tg root adds oc rvs avs bs rest :
   wf_ety_oer (ESeq tg root adds) = true -> wt_ety_oer_var (ESeq tg root adds) (EVSeq rvs avs) ->
   ext_oer_var (ESeq tg root adds) oc (EVSeq rvs avs) = Some bs ->
-  ext_oer_cdec std (ESeq tg root adds) (bs ++ rest) = Some (EVSeq rvs avs, rest).
+  ext_oer_cdec (ESeq tg root adds) (bs ++ rest) = Some (EVSeq rvs avs, rest).
 Proof.
   intros Hwf [Hwr Hwa] He. destruct (wf_ety_oer_parts _ _ _ Hwf) as (Hwfr & Hwfa & Hno).
   pose proof (var_adds_ok_wf adds avs Hwfa Hno Hwa) as Hok.
@@ -512,7 +512,7 @@ Proof.
     destruct (oer_bitmap_var_rt (ch_lf oc) (map is_present avs) bm (ots ++ rest) (map_is_present_nonnil avs Eany) Ebm)
       as (u & bmo & x & Hf & Hchk & Htb).
     rewrite Hf. rewrite oer_take_app. rewrite Hchk. rewrite Htb.
-    rewrite (var_additions_rt (oer_open_skip std) adds _ avs ots rest Hok Eo). reflexivity.
+    rewrite (var_additions_rt oer_open_skip adds _ avs ots rest Hok Eo). reflexivity.
   - apply some_inj in He. subst bs. rewrite <- !app_assoc.
     specialize (Hroot rest).
     destruct (take _ _) as [[pb r0]|]; [|contradiction].
@@ -539,10 +539,10 @@ Lemma ext_oer_var_choice_eq root exts c i v' :
   end.
 Proof. reflexivity. Qed.
 
-Theorem ext_oer_choice_complete std root exts oc i v' bs rest :
+Theorem ext_oer_choice_complete root exts oc i v' bs rest :
   wf_ety_oer (EChoice root exts) = true -> wt_ety_oer_var (EChoice root exts) (EVAlt i v') ->
   ext_oer_var (EChoice root exts) oc (EVAlt i v') = Some bs ->
-  ext_oer_cdec std (EChoice root exts) (bs ++ rest) = Some (EVAlt i v', rest).
+  ext_oer_cdec (EChoice root exts) (bs ++ rest) = Some (EVAlt i v', rest).
 Proof.
   intros Hwf [Hwt Hsz] He. cbn [wf_ety_oer wf_ty_oer] in Hwf.
   apply andb_true_iff in Hwf. destruct Hwf as [Hwf Hdis].
@@ -595,9 +595,9 @@ Proof.
 Qed.
 
 (* C03, OER, the extensible types of the layer, in a stream: EVERY oracle *)
-Theorem ext_oer_complete std t oc v bs rest :
+Theorem ext_oer_complete t oc v bs rest :
   wf_ety_oer t = true -> wt_ety_oer_var t v -> ext_oer_var t oc v = Some bs ->
-  ext_oer_cdec std t (bs ++ rest) = Some (v, rest).
+  ext_oer_cdec t (bs ++ rest) = Some (v, rest).
 Proof.
   destruct t as [tg root adds|root exts]; destruct v as [rvs avs|i v']; intros Hwf Hwt He;
     try (cbn [wt_ety_oer_var] in Hwt; contradiction).
@@ -605,12 +605,12 @@ Proof.
   - eapply ext_oer_choice_complete; eassumption.
 Qed.
 
-Corollary ext_oer_complete_decode std t oc v bs :
+Corollary ext_oer_complete_decode t oc v bs :
   wf_ety_oer t = true -> wt_ety_oer_var t v -> ext_oer_var t oc v = Some bs ->
-  ext_oer_cdecode std t bs = Some (v, zlen bs).
+  ext_oer_cdecode t bs = Some (v, zlen bs).
 Proof.
   intros Hwf Hwt He. unfold ext_oer_cdecode.
-  pose proof (ext_oer_complete std t oc v bs [] Hwf Hwt He) as H. rewrite app_nil_r in H.
+  pose proof (ext_oer_complete t oc v bs [] Hwf Hwt He) as H. rewrite app_nil_r in H.
   rewrite H. f_equal. f_equal. unfold zlen. cbn [length]. lia.
 Qed.
 
